@@ -30,6 +30,10 @@ type c04Level struct {
 	Esc      string `json:"escalate"`
 	Deesc    string `json:"deescalate"`
 	Auth     bool   `json:"auth"`
+	// Broad: the level's pattern matches EVERY level's prompt; NotContains (the other levels'
+	// markers) is what tells it apart
+	Broad       bool     `json:"broad,omitempty"`
+	NotContains []string `json:"not_contains,omitempty"`
 }
 
 type c04Op struct {
@@ -77,6 +81,15 @@ func genTree(r *sim.Rng, n int) []c04Level {
 			l.Auth = r.Chance(1, 4)
 		}
 		ls = append(ls, l)
+	}
+	if n >= 2 && r.Chance(1, 3) {
+		b := r.Intn(n)
+		ls[b].Broad = true
+		for i := range ls {
+			if i != b {
+				ls[b].NotContains = append(ls[b].NotContains, fmt.Sprintf("(l%d)", ls[i].Pat))
+			}
+		}
 	}
 	return ls
 }
@@ -264,17 +277,24 @@ func runC04Case(id string, c *c04Case) {
 	var specs []string
 	for _, l := range c.Levels {
 		patName := fmt.Sprintf("verif_lvl_%d", l.Pat)
+		if l.Broad {
+			patName = "verif_lvl_any"
+		}
 		dev.Levels[l.Name] = &sim.PrivLevel{Name: l.Name, Prompt: fmt.Sprintf("host(l%d)#", l.Pat), Previous: l.Previous, Escalate: l.Esc,
 			Deescalate: l.Deesc, Auth: l.Auth, AuthPrompt: "Password: "}
 		p := &network.PrivilegeLevel{Name: l.Name, Pattern: rx[patName], PreviousPriv: l.Previous, Escalate: l.Esc, Deescalate: l.Deesc,
-			EscalateAuth: l.Auth}
+			EscalateAuth: l.Auth, NotContains: l.NotContains}
+		var ncs []string
+		for _, x := range l.NotContains {
+			ncs = append(ncs, hx([]byte(x)))
+		}
 		ep := ""
 		if l.Auth {
 			p.EscalatePrompt = rx[c04AuthPromptRx]
 			ep = c04AuthPromptRx
 		}
 		pl[l.Name] = p
-		specs = append(specs, fmt.Sprintf("%s|%s||%s|%s|%s|%s|%s", hx([]byte(l.Name)), patName, hx([]byte(l.Previous)), hx([]byte(l.Deesc)),
+		specs = append(specs, fmt.Sprintf("%s|%s|%s|%s|%s|%s|%s|%s", hx([]byte(l.Name)), patName, strings.Join(ncs, ","), hx([]byte(l.Previous)), hx([]byte(l.Deesc)),
 			hx([]byte(l.Esc)), b2i(l.Auth), ep))
 	}
 	tr := sim.NewTransport(dev)
